@@ -35,7 +35,7 @@ def run(tier):
     chk.add_tlc("MC_Eq", res, LAWS)
     rc, txt = C.run_vh(["eqv", "replay", out, tier], timeout=3000)
     r = json.loads(txt)
-    n_rec = 3000 if tier == "quick" else 60000
+    n_rec = 3000 if tier == "quick" else 150000
     trace = os.path.join(out, "trace.ndjson")
     rc, txt = C.run_vh(["eqv", "record", str(n_rec), trace])
     rec = json.loads(txt)
